@@ -25,7 +25,8 @@ ASSUMED (dependency contracts, class World, symbolic side):
     exist); os.path.exists / os.makedirs have their documented meaning and makedirs succeeds.
  D5 eval(s) of an identifier is the module global of that name, NameError if there is none.
  D6 the cache directories hold only files named '%08X.json' % checksum (the library's own naming; at most one file
-    per directory and checksum, so the order in which glob lists a directory is irrelevant).
+    per directory and checksum, so the order in which glob lists a directory is irrelevant) - except in
+    fetch.foreign-file-names, where both directories also hold a *.json whose name is not a checksum.
 
 BOUNDED: tables of at most 2 entries (0, 1, 2; one or two groups); at most one pre-existing file per directory;
  directory names are fixed strings without glob meta characters; group/name/type strings have fixed lengths (2-3
